@@ -44,10 +44,13 @@ func TestC22Smoke(t *testing.T) {
 		`SELECT derivative(f0, 2s) FROM m0 WHERE time >= -30s AND time < 40s GROUP BY *`,
 	}...) {
 		out, err := st.c22Run(q)
-		fmt.Println(q)
 		if err != nil {
-			t.Fatal(err)
+			t.Fatal(q, err)
 		}
+		if !testing.Verbose() {
+			continue
+		}
+		fmt.Println(q)
 		for _, s := range out {
 			fmt.Printf("  %s {%s} %v\n", s.Name, c22TagString(s.Tags), s.Columns)
 			for _, r := range s.Rows {
